@@ -60,6 +60,11 @@ impl Write for ChoppySink {
     fn flush(&mut self) -> std::io::Result<()> {
         Ok(())
     }
+    /// native gather write (like a socket): the slices count as one buffer, so a short count may end inside a later slice
+    fn write_vectored(&mut self, bufs: &[std::io::IoSlice<'_>]) -> std::io::Result<usize> {
+        let all: Vec<u8> = bufs.iter().flat_map(|b| b.iter().copied()).collect();
+        self.write(&all)
+    }
 }
 
 #[derive(Clone, Debug, Serialize, Deserialize, PartialEq, Eq, Hash)]
@@ -154,6 +159,16 @@ pub fn eval_pure(c: &PureCase) -> Outcome {
         let r2 = run_history(&l.cfg, &l.ops);
         if r2.out != r.out || !same_returns(&r2.results, &r.results) {
             o.fail("same_bytes", "same_bytes.second_instance", format!("history {} gives different results in a second muxer instance", i));
+            return o;
+        }
+    }
+    // the same frames at another memory alignment (sub-slices of a larger buffer)
+    for (i, (l, r)) in refs.iter().enumerate() {
+        let mut cfg = l.cfg.clone();
+        cfg.misalign = 1 + ((c.sink as usize + i) % 7) as u8;
+        let r2 = run_history(&cfg, &l.ops);
+        if r2.out != r.out || !same_returns(&r2.results, &r.results) {
+            o.fail("same_bytes", format!("same_bytes.alignment.offset{}", cfg.misalign), format!("history {} gives different results when every frame starts at address = {} (mod 8)", i, cfg.misalign));
             return o;
         }
     }
@@ -450,7 +465,7 @@ pub fn eval_paths(c: &PathCase) -> Outcome {
     o
 }
 
-fn path_strategy(t: Tier) -> BoxedStrategy<PathCase> {
+pub fn path_strategy(t: Tier) -> BoxedStrategy<PathCase> {
     let mv = if t == Tier::Quick { 12 } else { 40 };
     (
         valid_case_strategy(mv, mv),
@@ -501,6 +516,48 @@ fn run_probe(ctx: &Ctx) -> SubReport {
 
 fn replay_probe(_v: &Value) -> Result<Outcome, String> {
     Err("the send_generic clause is a compile probe: re-run `./check C17 quick`".into())
+}
+
+// ------------------------------------------------------------------------------------------
+// long / large recordings on other sinks and at other alignments
+
+fn long_sink_cases(_t: Tier) -> Vec<ValidCase> {
+    crate::scenario::long_cases(false).into_iter().filter(|c| c.expand.as_ref().map(|e| e.nv + e.na <= 40_000).unwrap_or(true)).collect()
+}
+
+fn eval_long_sinks(c: &ValidCase) -> Outcome {
+    let mut o = Outcome::default();
+    o.nontrivial = true;
+    let (l, r) = reference(c);
+    if let Some(p) = &r.panic {
+        o.aborted_by_panic = Some(p.clone());
+        return o;
+    }
+    for (chunk, interrupt) in [(4099usize, true), (1 << 20, false), (3, false)] {
+        if chunk == 3 && r.out.len() > (3 << 20) {
+            continue;
+        }
+        let buf = Arc::new(Mutex::new(Vec::new()));
+        let s = ChoppySink { buf: buf.clone(), chunk, calls: 0, interrupt };
+        let (_, res) = run_plain(s, &l.cfg, &l.ops, &|_| ());
+        let b = buf.lock().unwrap();
+        o.sub_evals += 1;
+        if b[..] != r.out[..] || !same_returns(&res, &r.results) {
+            o.fail(
+                "same_bytes",
+                format!("same_bytes.sink.{}-bytes-per-call{}", chunk, if interrupt { "_with_Interrupted" } else { "" }),
+                format!("a sink accepting at most {} bytes per call received {} bytes, the reference {}; returns equal: {}", chunk, b.len(), r.out.len(), same_returns(&res, &r.results)),
+            );
+            return o;
+        }
+    }
+    let mut cfg = l.cfg.clone();
+    cfg.misalign = 3;
+    let r2 = run_history(&cfg, &l.ops);
+    if r2.out != r.out || !same_returns(&r2.results, &r.results) {
+        o.fail("same_bytes", "same_bytes.alignment.offset3", "different results when every frame starts at address = 3 (mod 8)");
+    }
+    o
 }
 
 // ------------------------------------------------------------------------------------------
@@ -647,6 +704,7 @@ pub fn def() -> PropertyDef {
             Box::new(PSub { name: "instances_threads_sinks", quick: 1200, thorough: 40000, strat: pure_strategy, eval: eval_pure }),
             Box::new(PSub { name: "equivalent_paths", quick: 8000, thorough: 250000, strat: path_strategy, eval: eval_paths }),
             Box::new(ESub { name: "send_generic", run: run_probe, replay: replay_probe }),
+            Box::new(LSub { name: "long_recordings", cases: long_sink_cases, eval: eval_long_sinks, note: crate::scenario::LONG_NOTE }),
             Box::new(LSub {
                 name: "wall_clock",
                 cases: clock_cases,
